@@ -23,9 +23,10 @@ ASSUMPTIONS = ['references to unknown Beads IDs / Instrument IDs are not documen
 CHUNK = 4
 
 SAMPLE_FAULTS = ['ok', 'notfound', 'few', 'fraction-neg', 'fraction-big', 'units', 'mef-beads-failed', 'mef-beads-novalues',
-                 'mef-nocurve', 'mef-nocolumn', 'other-instrument', 'amp-differs', 'voltage-differs']
-BEAD_FAULTS = ['ok', 'notfound', 'few', 'fraction-neg', 'fraction-big', 'unequal-mef']
+                 'mef-nocurve', 'mef-nocolumn', 'other-instrument', 'amp-differs', 'voltage-differs', 'notfound-below-a-file', 'notfound-name-too-long']
+BEAD_FAULTS = ['ok', 'notfound', 'few', 'fraction-neg', 'fraction-big', 'unequal-mef', 'unequal-mef-3ch', 'notfound-below-a-file']
 
+I3 = dict(wg.instrument(0, nfl=3), id='INST3')       # three fluorescence channels (ragged MEF value counts need >= 3)
 I1 = wg.instrument(0)          # FSC-H SSC-H FL1-H FL2-H Time
 I2 = wg.instrument(1)          # FSC-A ...
 FL1, FL2 = I1['fl']
@@ -50,6 +51,9 @@ def ensure_files():
     lay2, truth2 = wg.bead_layout(I2, stream=2)
     wg.write_fcs(os.path.join(d, 'beads_i2.fcs'), lay2)
     _FILES['truth2'] = truth2
+    lay3, truth3 = wg.bead_layout(I3, stream=4)
+    wg.write_fcs(os.path.join(d, 'beads_3ch.fcs'), lay3)
+    _FILES['truth3'] = truth3
     layf, _ = wg.bead_layout(I1, stream=3, few=True)
     wg.write_fcs(os.path.join(d, 'beads_few.fcs'), layf)
     for i in range(5):
@@ -87,6 +91,10 @@ def sample_row(pos, fault):
         return r
     if fault == 'notfound':
         r['file'] = 'no_such_file_%d.fcs' % pos
+    elif fault == 'notfound-below-a-file':
+        r['file'] = 'cell_0.fcs/cell_%d.fcs' % pos          # a path continuing below a regular file
+    elif fault == 'notfound-name-too-long':
+        r['file'] = 'x' * 300 + '.fcs'
     elif fault == 'few':
         r['file'] = 'cell_few.fcs'
     elif fault == 'fraction-neg':
@@ -123,6 +131,14 @@ def bead_row(pos, fault):
         return r
     if fault == 'notfound':
         r['file'] = 'missing_beads_%d.fcs' % pos
+    elif fault == 'notfound-below-a-file':
+        r['file'] = 'beads_ok.fcs/beads_%d.fcs' % pos
+    elif fault == 'unequal-mef-3ch':
+        # three channels whose value counts differ in compensating directions (6, 5, 7)
+        t3 = _FILES['truth3']
+        v = [wg.mef_string(t3, ci).split(', ') for ci in range(3)]
+        r.update(inst='INST3', file='beads_3ch.fcs', cluster=I3['fl'][0],
+                 mef={I3['fl'][0]: ', '.join(v[0]), I3['fl'][1]: ', '.join(v[1][:-1]), I3['fl'][2]: ', '.join(v[2] + ['999999'])})
     elif fault == 'few':
         r['file'] = 'beads_few.fcs'
     elif fault == 'fraction-neg':
@@ -298,7 +314,7 @@ def run_case(c):
     what = 'Beads table with rows %s' % [(r['id'], f) for r, f in zip(rows, faults)]
     one = dict(c)
     wb = os.path.join(d, 'beadstab_%d.xlsx' % os.getpid())
-    wg.write_workbook(wb, [I1, I2], rows, [], mef_channels_cols=[FL1, FL2])
+    wg.write_workbook(wb, [I1, I2, I3], rows, [], mef_channels_cols=[FL1, FL2, I3['fl'][2]])
     inst = ui.read_table(wb, 'Instruments', 'ID')
     bt = ui.read_table(wb, 'Beads', 'ID')
     try:
@@ -355,7 +371,7 @@ def run_case(c):
             key = ('bead', p)
             if key not in _SINGLE:
                 wb1 = os.path.join(d, 'beadstab1_%d.xlsx' % os.getpid())
-                wg.write_workbook(wb1, [I1, I2], [bead_row(p, 'ok')], [], mef_channels_cols=[FL1, FL2])
+                wg.write_workbook(wb1, [I1, I2, I3], [bead_row(p, 'ok')], [], mef_channels_cols=[FL1, FL2, I3['fl'][2]])
                 bt1 = ui.read_table(wb1, 'Beads', 'ID')
                 np.random.seed(1)
                 with warnings.catch_warnings():
